@@ -44,6 +44,11 @@ fn round_up_to_page_size(size: u64) -> Option<u64> {
     size.checked_add(0xfff).map(|s| s & !0xfff)
 }
 
+/// Upper bound for the memory image built from the PT_LOAD segments of one file.
+/// p_memsz is an arbitrary 64-bit number in the file; without a bound a few header bytes make the loader
+/// ask the allocator for terabytes, which aborts the process instead of returning an error.
+const MAX_IMAGE_SIZE: u64 = 1 << 30;
+
 // TODO: System V ABI mentions %rdx should have "a function pointer that the application should register with atexit" at process entry
 
 #[wasm_bindgen]
@@ -80,6 +85,8 @@ impl Axecutor {
             Some(seg) => seg,
             None => return Err(AxError::from("ELF: No segments found")),
         };
+
+        let mut image_size: u64 = 0;
 
         for segment in segments {
             if segment.p_vaddr == 0 {
@@ -202,6 +209,13 @@ impl Axecutor {
                             ))
                         }
                     };
+
+                    image_size = image_size.saturating_add(memsz);
+                    if image_size > MAX_IMAGE_SIZE {
+                        return Err(AxError::from(format!(
+                            "ELF: Loadable segments exceed the maximum image size of {MAX_IMAGE_SIZE:#x} bytes"
+                        )));
+                    }
 
                     if memsz == segment.p_filesz {
                         axecutor.mem_init_area_named(
